@@ -206,8 +206,8 @@ struct AuthPayload {
 }
 
 pub const ENTRY_POINTS: &[&str] = &[
-    "id_user", "id_room", "id_alias", "id_room_or_alias", "id_event", "id_server", "id_mxc", "id_key", "id_device_key", "id_misc", "uri_matrix_to", "uri_matrix", "json_timeline", "json_sync_timeline",
-    "json_stripped", "json_to_device", "json_account_data", "json_ephemeral", "json_raw", "json_message_content", "json_ruleset", "json_push_condition", "json_canonical", "http_send_message", "http_get_state",
+    "id_user", "id_room", "id_alias", "id_room_or_alias", "id_event", "id_server", "id_mxc", "id_key", "id_device_key", "id_misc", "id_event_type", "uri_matrix_to", "uri_matrix", "json_timeline", "json_sync_timeline",
+    "json_stripped", "json_to_device", "json_account_data", "json_ephemeral", "json_raw", "json_message_content", "json_ruleset", "json_push_condition", "json_canonical", "http_send_message", "http_get_state", "http_get_account_data",
     "http_join", "http_fed_send_join", "http_fed_transaction", "http_resp_sync", "http_resp_error", "hdr_content_disposition", "hdr_xmatrix", "hdr_retry_after", "push_get_match", "push_flatten", "push_ruleset_edits", "sig_verify_json",
     "sig_verify_event", "sig_sign", "sig_hashes_redact", "sig_from_der", "sig_base64", "auth_check", "html_parse", "html_sanitize_strict", "html_sanitize_compat", "html_remove_fallback",
 ];
@@ -272,6 +272,24 @@ pub fn call(ep: &str, p: &[u8]) -> String {
                 <&ruma_common::Base64PublicKey>::try_from(s).is_ok() as u8
             ),
         },
+        // event types arrive as the `type` of an event and as a path segment of endpoints; every enum
+        // must turn any string into a value whose string form is total as well
+        "id_event_type" => match utf8(p) {
+            None => "notutf8".into(),
+            Some(s) => {
+                use ruma_events::{EphemeralRoomEventType, GlobalAccountDataEventType, MessageLikeEventType, RoomAccountDataEventType, StateEventType, TimelineEventType, ToDeviceEventType};
+                format!(
+                    "{}:{}:{}:{}:{}:{}:{}",
+                    TimelineEventType::from(s).to_string().len(),
+                    StateEventType::from(s).to_string().len(),
+                    MessageLikeEventType::from(s).to_string().len(),
+                    GlobalAccountDataEventType::from(s.to_owned()).to_string().len(),
+                    RoomAccountDataEventType::from(s).to_string().len(),
+                    EphemeralRoomEventType::from(s).to_string().len(),
+                    ToDeviceEventType::from(s).to_string().len()
+                )
+            }
+        },
         "uri_matrix_to" => utf8(p).map(|s| d(MatrixToUri::parse(s).map(|u| u.to_string()))).unwrap_or_else(|| "notutf8".into()),
         "uri_matrix" => utf8(p).map(|s| d(MatrixUri::parse(s).map(|u| u.to_string()))).unwrap_or_else(|| "notutf8".into()),
         "json_timeline" => d(serde_json::from_slice::<AnyTimelineEvent>(p).map(|e| (e.event_type().to_string(), e.sender().to_owned()))),
@@ -291,6 +309,7 @@ pub fn call(ep: &str, p: &[u8]) -> String {
         "json_canonical" => d(serde_json::from_slice::<CanonicalJsonValue>(p).map(|v| v.to_string().len())),
         "http_send_message" => req_ep!(p, ruma_client_api::message::send_message_event::v3::Request),
         "http_get_state" => req_ep!(p, ruma_client_api::state::get_state_events_for_key::v3::Request),
+        "http_get_account_data" => req_ep!(p, ruma_client_api::config::get_global_account_data::v3::Request),
         "http_join" => req_ep!(p, ruma_client_api::membership::join_room_by_id_or_alias::v3::Request),
         "http_fed_send_join" => req_ep!(p, ruma_federation_api::membership::create_join_event::v2::Request),
         "http_fed_transaction" => req_ep!(p, ruma_federation_api::transactions::send_transaction_message::v1::Request),
